@@ -34,14 +34,14 @@ package signedexchange
 //@   requires enc != nil && enc.w != nil && !failed(enc.w)
 //@   ensures[write-failure-surfaces] failed(enc.w) ==> result != nil
 //@   ensures accepted(enc.w) >= old(accepted(enc.w)) && accepted(enc.w) - wrapped(enc.w) == old(accepted(enc.w) - wrapped(enc.w))
-//@   assigns accepted(enc.w), failed(enc.w), content(enc.w), wrapped(enc.w), all(spos)
+//@   assigns accepted(enc.w), failed(enc.w), content(enc.w), wrapped(enc.w)
 
 //@ func (*Exchange).encodeResponseMap
 //@   props C08 C19
 //@   requires enc != nil && enc.w != nil && !failed(enc.w)
 //@   ensures[write-failure-surfaces] failed(enc.w) ==> result != nil
 //@   ensures accepted(enc.w) >= old(accepted(enc.w)) && accepted(enc.w) - wrapped(enc.w) == old(accepted(enc.w) - wrapped(enc.w))
-//@   assigns accepted(enc.w), failed(enc.w), content(enc.w), wrapped(enc.w), all(spos)
+//@   assigns accepted(enc.w), failed(enc.w), content(enc.w), wrapped(enc.w)
 
 //@ func (*Exchange).encodeExchangeHeaders
 //@   props C08 C19
@@ -49,7 +49,7 @@ package signedexchange
 //@   requires enc != nil && enc.w != nil && !failed(enc.w)
 //@   ensures[write-failure-surfaces] failed(enc.w) ==> result != nil
 //@   ensures accepted(enc.w) >= old(accepted(enc.w)) && accepted(enc.w) - wrapped(enc.w) == old(accepted(enc.w) - wrapped(enc.w))
-//@   assigns accepted(enc.w), failed(enc.w), content(enc.w), wrapped(enc.w), all(spos)
+//@   assigns accepted(enc.w), failed(enc.w), content(enc.w), wrapped(enc.w)
 
 //@ func (*Exchange).DumpExchangeHeaders
 //@   props C08 C19
@@ -57,7 +57,7 @@ package signedexchange
 //@   requires w != nil && !failed(w)
 //@   ensures[write-failure-surfaces] failed(w) ==> result != nil
 //@   ensures accepted(w) >= old(accepted(w)) && accepted(w) - wrapped(w) == old(accepted(w) - wrapped(w))
-//@   assigns accepted(w), failed(w), content(w), wrapped(w), all(spos)
+//@   assigns accepted(w), failed(w), content(w), wrapped(w)
 
 // Exchange.Write: a failing destination surfaces as an error (every step);
 // a file is only produced when the URL, Signature and header block fit the
@@ -73,7 +73,7 @@ package signedexchange
 //@   ensures[signature-fits-three-bytes] result == nil ==> len(e.SignatureHeaderValue) < 16777216
 //@   ensures[at-least-the-fixed-fields] result == nil ==> accepted(w) >= old(accepted(w)) + 8 + 3 + 3 + len(e.SignatureHeaderValue) + len(e.Payload)
 //@   ensures accepted(w) >= old(accepted(w)) && accepted(w) - wrapped(w) == old(accepted(w) - wrapped(w))
-//@   assigns accepted(w), failed(w), content(w), wrapped(w), all(spos)
+//@   assigns accepted(w), failed(w), content(w), wrapped(w)
 
 // ---- acceptance policy (C09, C01) ---------------------------------------------
 // unixOf(t): the mathematical Unix second of an instant.
@@ -121,9 +121,58 @@ package signedexchange
 //@   props C09
 //@   ensures[iff-none-banned] result == nil <==> (forall k string :: has(h, k) ==> !has(uncachedHeadersSet, strLower(k)))
 //@   assigns nothing
+//@   loop 0:
+//@     invariant forall k string :: visited(k) ==> has(h, k) && !has(uncachedHeadersSet, strLower(k))
 
 //@ func isSameOrigin
 //@   props C09
 //@   requires u1 != nil && u2 != nil
 //@   ensures result <==> (u1.Scheme == u2.Scheme && u1.Host == u2.Host)
 //@   assigns nothing
+
+//@ func verifyHeaders
+//@   props C09
+//@   requires e != nil
+//@   ensures[iff-none-banned] result == nil <==> ((forall k string :: has(e.RequestHeaders, k) ==> !(strLower(k) == "authorization" || strLower(k) == "cookie" || strLower(k) == "cookie2" || strLower(k) == "proxy-authorization" || strLower(k) == "sec-websocket-key")) && (forall k string :: has(e.ResponseHeaders, k) ==> !has(uncachedHeadersSet, strLower(k))))
+//@   assigns nothing
+//@   loop 0:
+//@     invariant forall k string :: visited(k) ==> has(e.RequestHeaders, k) && !(strLower(k) == "authorization" || strLower(k) == "cookie" || strLower(k) == "cookie2" || strLower(k) == "proxy-authorization" || strLower(k) == "sec-websocket-key")
+
+// parseCacheControlDirectives is a function of its argument (tokenisation is
+// not specified further): the set of directive names it finds.
+//@ func parseCacheControlDirectives
+//@   props C09
+//@   pure
+//@   ensures result != nil
+
+// IsCacheable (b3): exactly the RFC 7234 section 3 predicate over the status
+// code, the Cache-Control directives found and the Expires header.
+//@ uf statusText(int) string
+//@ func (*Exchange).IsCacheable
+//@   props C09
+//@   may_panic
+//@   requires l != nil
+//@   ensures[rfc7234-section-3] result <==> (statusText(e.ResponseStatus) != "" && !has(parseCacheControlDirectives(hdrGet(e.ResponseHeaders, "Cache-Control")), "no-store") && !has(parseCacheControlDirectives(hdrGet(e.ResponseHeaders, "Cache-Control")), "private") && (hdrGet(e.ResponseHeaders, "Expires") != "" || has(parseCacheControlDirectives(hdrGet(e.ResponseHeaders, "Cache-Control")), "max-age") || has(parseCacheControlDirectives(hdrGet(e.ResponseHeaders, "Cache-Control")), "s-maxage") || e.ResponseStatus == 200 || e.ResponseStatus == 203 || e.ResponseStatus == 204 || e.ResponseStatus == 206 || e.ResponseStatus == 300 || e.ResponseStatus == 301 || e.ResponseStatus == 404 || e.ResponseStatus == 405 || e.ResponseStatus == 410 || e.ResponseStatus == 414 || e.ResponseStatus == 501 || has(parseCacheControlDirectives(hdrGet(e.ResponseHeaders, "Cache-Control")), "public")))
+//@   assigns nothing
+
+// ---- the signed message (C08, C01) --------------------------------------------
+// b2/b3 layout from the draft: 64 spaces, the 18-byte context string, a 0
+// byte, then "if cert-sha256 is set, a byte holding 32 followed by the 32
+// bytes of the value, otherwise a 0 byte", then 8-byte big-endian length
+// and bytes of validity-url, ... Checked at the fixed offsets below.
+//@ func serializeSignedMessage
+//@   props C08 C01
+//@   may_panic
+//@   returns (msg, err)
+//@   requires e != nil && (certSha256 == nil || len(certSha256) == 32)
+//@   ensures[b2b3-prefix] err == nil && e.Version != version.Version1b1 ==> len(msg) >= 84 && (forall i int :: 0 <= i && i < 64 ==> msg[i] == 32) && msg[82] == 0
+//@   ensures[b2b3-cert-flag] err == nil && e.Version != version.Version1b1 ==> (certSha256 != nil ==> msg[83] == 32) && (certSha256 == nil ==> msg[83] == 0)
+//@   ensures[b2b3-validity-url-length-with-cert] err == nil && e.Version != version.Version1b1 && certSha256 != nil ==> len(msg) >= 124 + len(validityUrl) && msg[123] == byte(len(validityUrl))
+//@   ensures[b2b3-validity-url-length-without-cert] err == nil && e.Version != version.Version1b1 && certSha256 == nil ==> len(msg) >= 92 + len(validityUrl) && msg[91] == byte(len(validityUrl))
+//@   assigns nothing
+//@   loop 0:
+//@     invariant 0 <= i && i <= 64 && spos(buf) == 0 && send(buf) == i && accepted(buf) == i && !failed(buf)
+//@     invariant forall k int :: 0 <= k && k < i ==> sdata(buf)[k] == 32
+//@   loop 1:
+//@     invariant 0 <= i && i <= 64 && spos(buf) == 0 && send(buf) == i && accepted(buf) == i && !failed(buf)
+//@     invariant forall k int :: 0 <= k && k < i ==> sdata(buf)[k] == 32
